@@ -48,7 +48,7 @@ class Path:
         p = Path(self.env, None)
         p.pc = self.pc
         p.ghost = self.ghost
-        p.status = self.status
+        p.status, p.ret, p.exc = self.status, self.ret, self.exc
         return p
 
     def assume(self, *facts):
@@ -307,6 +307,13 @@ def index(v, idx):
             return v.vals[idx]
         raise Unsupported(f"key {idx!r} not in {v!r}")
     if isinstance(v, Opaque):
+        if isinstance(idx, str) or isinstance(idx, Opaque):
+            cache = v.__dict__.setdefault("_items", {})
+            key = idx if isinstance(idx, str) else id(idx)
+            if key not in cache:
+                cache[key] = Opaque(f"{v.tag}[{idx if isinstance(idx, str) else idx.tag}]")
+                cache[key].item_of = (v, idx)
+            return cache[key]
         f = z3.Function("item_of", PyObj, z3.IntSort(), PyObj)
         return Opaque(v.tag + "_item", f(v.term, to_z3(idx)))
     raise Unsupported(f"subscript of {v!r}")
@@ -781,6 +788,12 @@ def contains(container, item):
         return q_exists([k], b_and(0 <= k, k < length(container)), val_eq(index(container, k), item))
     if isinstance(container, Obj) and "__contains__" in container.fields:
         return container.fields["__contains__"](item)
+    if CFG_MODE[0] and isinstance(container, Opaque):
+        cache = container.__dict__.setdefault("_contains", {})
+        key = item if isinstance(item, (str, int)) else id(item)
+        if key not in cache:
+            cache[key] = fresh_bool(f"in_{container.tag}")
+        return cache[key]
     raise Unsupported(f"`in` on {container!r}")
 
 
@@ -1453,6 +1466,7 @@ class Executor:
             failing.ghost.setdefault("events", []).extend(attempted)
             failing.status = "raise"
             failing.exc = Exc("<raised by a call at line %d>" % s.lineno, s.lineno)
+            failing.exc.stmt = ast.unparse(s)[:200]
             failing.ghost.setdefault("injected_failures", []).append(s.lineno)
             return outs + [failing]
         return m(s, path)
